@@ -1,7 +1,7 @@
 SPECIFICATION SpecPOR
 CONSTANTS
-  NConc = 3
-  NPost = 2
+  NConc = 0
+  NPost = 0
   BareSendPublishBatch = FALSE
   BareSendDiscover = FALSE
   UnbufferedSelRecvReply = FALSE
@@ -10,7 +10,7 @@ CONSTANTS
   DiscCap = 1
   SendCap = 1
   MaxTicks = 0
-  MaxRemote = 0
-INVARIANTS TypeOK P_C14_Returns_POR P_C14_Exit_POR P_C14_NoPanic
+  MaxRemote = 2
+INVARIANTS TypeOK P_C14_Exit_POR
 VIEW NoRes
 CHECK_DEADLOCK FALSE
